@@ -2125,7 +2125,10 @@ impl<T: Storage> Raft<T> {
                         "possible unapplied conf change"
                     } else {
                         let already_joint = confchange::joint(self.prs.conf());
-                        let want_leave = cc.changes.is_empty();
+                        // Classify the proposal the way it will be applied: an empty change
+                        // list leaves the joint configuration only with the Auto transition,
+                        // otherwise it asks to enter one.
+                        let want_leave = cc.leave_joint();
                         if already_joint && !want_leave {
                             "must transition out of joint config first"
                         } else if !already_joint && want_leave {
